@@ -126,7 +126,7 @@ func errorReturns(fn *ssa.Function) []*ssa.Return {
 	}
 	var out []*ssa.Return
 	for _, r := range returnsOf(fn) {
-		op := r.Results[idx]
+		op := retOperand(r, idx)
 		if isNilConst(op) {
 			continue
 		}
@@ -140,7 +140,7 @@ func successReturns(fn *ssa.Function) []*ssa.Return {
 	idx := errResultIndex(fn.Signature)
 	var out []*ssa.Return
 	for _, r := range returnsOf(fn) {
-		if idx < 0 || isNilConst(r.Results[idx]) {
+		if idx < 0 || isNilConst(retOperand(r, idx)) {
 			out = append(out, r)
 		}
 	}
